@@ -37,23 +37,23 @@ Definition clause_terminates (c : case) : bool :=
   negb (Z.eqb (i_class (c_impl c)) 9) && negb (Z.eqb (i_class (c_impl c)) 8).
 
 (* clause 2: loading a file that is already being loaded is reported as a loop error *)
-Definition clause_loop_reported (c : case) : bool :=
-  match reference c with
+Definition clause_loop_reported (c : case) (r : rres) : bool :=
+  match r with
   | RefLoop _ _ => impl_is_loop c
   | _ => true
   end.
 
 (* clause 3: no loop error unless a file really is loaded while being loaded *)
-Definition clause_no_false_loop (c : case) : bool :=
-  match reference c with
+Definition clause_no_false_loop (c : case) (r : rres) : bool :=
+  match r with
   | RefLoop _ _ => true
   | RefFuel => false        (* never happens: the reference stack holds a file once *)
   | _ => negb (impl_is_loop c)
   end.
 
 (* clause 4: without a loop the outcome is the reference's (css or `not found`) *)
-Definition clause_outcome (c : case) : bool :=
-  match reference c with
+Definition clause_outcome (c : case) (r : rres) : bool :=
+  match r with
   | RefDone _ _ _ => Z.eqb (i_class (c_impl c)) 0 || Z.eqb (i_class (c_impl c)) 9
   | RefNotFound => Z.eqb (i_class (c_impl c)) 3 || Z.eqb (i_class (c_impl c)) 9
   | _ => true
@@ -62,15 +62,15 @@ Definition clause_outcome (c : case) : bool :=
 (* ---- known-finding classes: INPUT only (the reference run is a function of the input) ---- *)
 
 (* F5: the loop passes through a url spelled with `.`, `..` or an empty segment *)
-Definition known_K1 (c : case) : bool :=
-  match reference c with
+Definition known_K1 (r : rres) : bool :=
+  match r with
   | RefLoop fr (k, u) => spelled u || existsb (fun f => spelled (snd f)) (removelast fr)
   | _ => false
   end.
 
 (* F6: every file of the loop was entered through meta.load-css, and so is the closing load *)
-Definition known_K2 (c : case) : bool :=
-  match reference c with
+Definition known_K2 (r : rres) : bool :=
+  match r with
   | RefLoop fr (k, u) =>
       match k with KLoadCss => forallb (fun f => match snd (fst f) with KLoadCss => true | _ => false end) fr | _ => false end
   | _ => false
@@ -78,12 +78,13 @@ Definition known_K2 (c : case) : bool :=
 
 Definition b2z (b : bool) : Z := if b then 1%Z else 0%Z.
 
-Definition ref_class (c : case) : Z :=
-  match reference c with RefDone _ _ _ => 0 | RefLoop _ _ => 1 | RefNotFound => 3 | RefFuel => 9 end%Z.
+Definition ref_class (r : rres) : Z :=
+  match r with RefDone _ _ _ => 0 | RefLoop _ _ => 1 | RefNotFound => 3 | RefFuel => 9 end%Z.
 
 (* [corr; terminates; loop reported; no false loop; outcome; known class (0/1/2); reference class] *)
 Definition run (c : case) : list Z :=
+  let r := reference c in
   [ corr c;
-    b2z (clause_terminates c); b2z (clause_loop_reported c); b2z (clause_no_false_loop c); b2z (clause_outcome c);
-    (if known_K1 c then 1 else if known_K2 c then 2 else 0)%Z;
-    ref_class c ].
+    b2z (clause_terminates c); b2z (clause_loop_reported c r); b2z (clause_no_false_loop c r); b2z (clause_outcome c r);
+    (if known_K1 r then 1 else if known_K2 r then 2 else 0)%Z;
+    ref_class r ].
